@@ -212,4 +212,12 @@ def tiledLaunch (h : Header) (T : Int) (check : Bool) : List Int :=
     ((List.range nIn).map fun m => valueOf (innerHeader h T xT) (Int.ofNat m)).filter
       fun x => !check || h.test x
 
+/-- two nested `@tile(…, @outer, @inner)` loops after `tile::floatOuterLoopUp`: both block loops outside, both
+    in-block loops (with their bounds checks) inside — the loop order of 2-D tiling -/
+def tiled2d (hy : Header) (Ty : Int) (cy : Bool) (hx : Header) (Tx : Int) (cx : Bool) : List (List Int) :=
+  (seqIters (blockHeader hy Ty)).flatMap fun yT =>
+  (seqIters (blockHeader hx Tx)).flatMap fun xT =>
+  ((seqIters (innerHeader hy Ty yT)).filter fun y => !cy || hy.test y).flatMap fun y =>
+  ((seqIters (innerHeader hx Tx xT)).filter fun x => !cx || hx.test x).map fun x => [y, x]
+
 end Occa.Loop
